@@ -21,7 +21,7 @@ RULE = (
     "empty, sharing keys, NUL/long keys), updated by list, dict-with-multiplicities or ngram calls; callbacks return generated record counts (also "
     "through a **kwargs-dependent callback). Oracle per run: the callback is invoked exactly once per item (judged by the callback's own log, so an implementation may batch items); returned sketches identified by class (an undocumented tuple order is only counted); HyperLogLog registers == sequential sketch; n_added of cms/hh == total multiplicity; n_records == sum of callback "
     "returns; linear cms within the C01 bounds, log cms above the C06 lower bound, hh within C03/C04 bounds w.r.t. the whole stream. A quarter of the drawn cases run after an earlier parallel_add call of the same process (same arguments, other keys) whose result is still held: the later result must not contain its data and the earlier result must not change. Interleaved runs: the same code under a cooperative-thread context (bounded blocking queue, concurrent filler, seeded scheduler with 5 policies) for Hypothesis-drawn cases with up to 40 items and 6 workers. Real spawned "
-    "runs (quick 1, thorough 4; a side file records (pid, item)) validate the context. Non-trivial: >= 2 workers receive items and n_workers >= 3 "
+    "runs (quick 1, thorough 4; a side file records (pid, item); the callback starts a child process of its own for every other item) validate the context. Non-trivial: >= 2 workers receive items and n_workers >= 3 "
     "or odd. Distinct = distinct (items, n_workers, schedule, combination, items_as)."
 )
 ASSUMPTIONS = [
@@ -207,6 +207,9 @@ if __name__ == "__main__":
     from sketchnu.hyperloglog import HyperLogLog
     combo = json.loads(combo_json)
     items = mk_items(BASE_SPECS[3])
+    os.environ["VF_REAL_SPAWN"] = "1"  # inherited by the spawned workers: the callback starts a child process of its own for every other item
+    for it in items[::2]:
+        it["child"] = True
     kw = {k: v for k, v in combo.items() if v is not None}
     res = helpers.parallel_add(items, cbmod.process_item, n_workers=n_workers, side=side, **kw)
     parts = list(res) if isinstance(res, tuple) else [res]
